@@ -564,8 +564,14 @@ impl<'a> Gen<'a> {
             _ => {}
         }
         let h0 = self.h;
-        self.push_set(&a);
-        self.push_set(&b);
+        // either operand order (which list carries the repeat matters to an asymmetric implementation)
+        if self.r.chance(0.5) {
+            self.push_set(&a);
+            self.push_set(&b);
+        } else {
+            self.push_set(&b);
+            self.push_set(&a);
+        }
         self.emit(EQST);
         self.h = h0 + 1;
     }
